@@ -153,7 +153,7 @@ fn iccma_case(max_n: usize, max_muts: usize) -> BoxedStrategy<ReaderCase> {
         vec((any::<u16>(), 0u8..3), 0..=3),
         vec(mutation(), 0..=max_muts),
         // targeted token-level corruptions of the listed ill-formedness classes
-        prop_oneof![6 => Just(0u8), 1 => 1u8..=12],
+        prop_oneof![6 => Just(0u8), 1 => 1u8..=14],
         any::<u16>(),
     )
         .prop_map(|(n, atts, (hd, trailing_blank, crlf, final_nl, hdr_variant), comments, muts, targeted, tpos)| {
@@ -191,6 +191,20 @@ fn iccma_case(max_n: usize, max_muts: usize) -> BoxedStrategy<ReaderCase> {
                 6 => lines.insert(at.max(1).min(lines.len()), format!("0 {}", n.max(1))),
                 7 => lines.insert(at.max(1).min(lines.len()), format!("{} 1", n + 1)),
                 8 => lines.insert(at.max(1).min(lines.len()), "-1 1".to_string()),
+                13 | 14 => {
+                    // an index, or the declared size, at and around the bounds of the machine integer types
+                    const EDGE: [&str; 14] = [
+                        "-9223372036854775808", "-9223372036854775809", "9223372036854775807", "9223372036854775808", "18446744073709551615",
+                        "18446744073709551616", "4294967295", "4294967296", "-2147483648", "2147483648", "-0", "+1", "01", "1e0",
+                    ];
+                    let e = EDGE[tpos as usize % EDGE.len()];
+                    if targeted == 13 {
+                        let l = if tpos % 2 == 0 { format!("{} 1", e) } else { format!("1 {}", e) };
+                        lines.insert(at.max(1).min(lines.len()), l);
+                    } else {
+                        lines[0] = format!("p af {}", e);
+                    }
+                }
                 9 => lines.insert(at.max(1).min(lines.len()), "a 1".to_string()),
                 10 => lines.insert(at.max(1).min(lines.len()), "1".to_string()),
                 11 => lines.insert(at.max(1).min(lines.len()), "1 1 1".to_string()),
